@@ -121,8 +121,16 @@ class ImageWriter:
         elif self._is_jbig2_iamge(image):
             name = self._save_jbig2(image)
 
-        elif not (isinstance(width, int) and isinstance(height, int)):
-            msg = "Image size %r x %r is not a pair of integers" % (width, height)
+        elif not (
+            isinstance(width, int)
+            and isinstance(height, int)
+            and isinstance(image.bits, int)
+        ):
+            msg = "Image size %r x %r x %r bits is not made of integers" % (
+                width,
+                height,
+                image.bits,
+            )
             raise PDFValueError(msg)
 
         elif image.bits == 1:
